@@ -201,9 +201,22 @@ func genXport(r *rng, seed uint64, focus, arm string) *plan.Plan {
 	}
 	if focus == "C18x" {
 		for i := 0; i < nu; i++ {
-			if r.p(0.8) {
-				xp.Closes = append(xp.Closes, plan.XClose{Up: i, AtUs: r.i64(0, span+100_000), Twice: r.p(0.6)})
+			if !r.p(0.85) {
+				continue
 			}
+			at := r.i64(0, span+100_000)
+			// most of the time right after a call on this upstream started: while its
+			// dial / handshake / exchange is in flight
+			var mine []plan.XCall
+			for _, c := range xp.Calls {
+				if c.Up == i {
+					mine = append(mine, c)
+				}
+			}
+			if len(mine) > 0 && r.p(0.75) {
+				at = mine[r.intn(len(mine))].AtUs + r.i64(0, 3*xp.Net.UpLatUs[1]+200)
+			}
+			xp.Closes = append(xp.Closes, plan.XClose{Up: i, AtUs: at, Twice: r.p(0.6)})
 		}
 	}
 	xp.HorizonUs = span + 10_000_000
